@@ -34,6 +34,16 @@
   (= r v))))
 ; AX dropF-def
 (assert (forall ((v Val)) (! (dropRel v (dropF v)) :pattern ((dropF v)))))
+;   noNullV v : no map entry and no list entry of v, at any depth, is null. Phase 1 of evaluation (process1*) returns such
+;               trees; that is what makes a reference to a key whose value is null a MISSING reference in phase 2 (C13:
+;               "a missing reference is an error"): null means "no such key" in bkl, and look-ups must not find one.
+(define-funs-rec (
+  (noNullV ((v Val)) Bool)
+  (noNullL ((l Lst)) Bool))
+ ((ite ((_ is VList) v) (noNullL (ls v))
+  (ite ((_ is VMap) v) (forall ((k String)) (=> (not (= (select (mc v) k) VAbsent)) (and (not (= (select (mc v) k) VNil)) (noNullV (select (mc v) k)))))
+  true))
+  (ite ((_ is LNil) l) true (and (not (= (hd l) VNil)) (noNullV (hd l)) (noNullL (tl l))))))
 (declare-fun height (Val) Int)
 (declare-fun heightL (Lst) Int)
 ; AX height: children are strictly lower than their container
